@@ -33,6 +33,8 @@ let step_run cf st dt = g_step qops cf st dt
 let finalize_run cf st0 sts st1 = g_finalize qops cf st0 sts st1
 let spec_smooth_run cf st0 sts dts = g_spec_smooth qops cf st0 sts dts
 
+let error_run cf est pu prev tp dt rf atol rtol nk = g_error qops cf est pu prev tp dt rf atol rtol nk
+
 let show (r : Q.t list option) =
   match r with
   | None -> print_string "0\n"
